@@ -194,113 +194,4 @@ theorem good_search (pr : PA) (h : WF pr) (anchor : NodeRef) (pR : Option Root) 
 theorem wf_sinkLog {pr : PA} (h : WF pr) (l : List (NodeRef × Bool × Bool)) : WF { pr with sinkLog := l } :=
   ⟨h.off, h.len, h.idx_sound, h.idx_complete, h.tpar_lt, h.fpar_lt, h.bc_child, h.bd_desc, h.bc_bd, h.bs_node⟩
 
-/-- the sink loop touches nothing but the log -/
-theorem sendLoop_spec : ∀ (l : List (NodeRef × Bool)) (pr : PA) (k : Nat),
-    ∃ log k' ok, PA.sendLoop l pr k = ({ pr with sinkLog := log }, k', ok) ∧ k ≤ k' ∧ k' ≤ k + l.length := by
-  intro l
-  induction l with
-  | nil => intro pr k; exact ⟨pr.sinkLog, k, true, rfl, Nat.le_refl _, by simp⟩
-  | cons x rest ih =>
-    intro pr k
-    obtain ⟨r, c⟩ := x
-    unfold PA.sendLoop
-    simp only [PA.sinkCall]
-    split
-    · rename_i pr' heq
-      simp only [Prod.mk.injEq] at heq
-      obtain ⟨h1, h2⟩ := heq
-      obtain ⟨log, k', ok, e, a1, a2⟩ := ih pr' (k + 1)
-      subst h1
-      exact ⟨log, k', ok, e, by omega, by simp; omega⟩
-    · rename_i pr' heq
-      simp only [Prod.mk.injEq] at heq
-      obtain ⟨h1, h2⟩ := heq
-      subst h1
-      exact ⟨_, k, false, rfl, Nat.le_refl _, by simp⟩
-
-theorem dropLoop_spec (ref : NodeRef) : ∀ (k : Nat) (pr : PA), k ≤ pr.nodes.length →
-    ∃ pr', PA.dropLoop ref k pr = some pr' ∧ pr'.offset = pr.offset + k := by
-  intro k
-  induction k with
-  | zero => intro pr _; exact ⟨pr, rfl, rfl⟩
-  | succ k ih =>
-    intro pr hk
-    unfold PA.dropLoop
-    cases hn : pr.nodes with
-    | nil => rw [hn] at hk; simp at hk
-    | cons x rest =>
-      simp only
-      obtain ⟨pr', e, ho⟩ := ih { pr with indices := aDel pr.indices ref, blockSlots := aDel pr.blockSlots ref.root,
-                                           nodes := rest, offset := pr.offset + 1 } (by rw [hn] at hk; simpa using hk)
-      exact ⟨pr', e, by rw [ho]; simp; omega⟩
-
-/-- `OnPrune` on a well-formed array: never panics; if afterwards nothing has been pruned (`offset = 0`) the array
-is still well formed -/
-def PruneOK (r : POut PA Unit) : Prop :=
-  match r with
-  | .ok s _ => s.offset = 0 → WF s
-  | .err s => s.offset = 0 → WF s
-  | .panic => False
-  | .spin => False
-
-theorem onPrune_wf (pr : PA) (h : WF pr) (root : Root) (slot : Nat) : PruneOK (pr.onPrune root slot) := by
-  unfold PA.onPrune
-  cases hi : aGet pr.indices ⟨slot, root⟩ with
-  | none => exact fun _ => h
-  | some anchorIndex =>
-    simp only
-    split
-    · exact fun _ => h
-    · rename_i hne
-      have hg := good_findHead pr h root slot
-      cases hf : pr.findHead root slot with
-      | err s => rw [hf] at hg; exact fun _ => hg.1
-      | panic => rw [hf] at hg; exact hg.elim
-      | spin => rw [hf] at hg; exact hg.elim
-      | ok pr1 head =>
-        rw [hf] at hg
-        obtain ⟨hw1, fr1⟩ := hg
-        simp only
-        cases hh : aGet pr1.indices head with
-        | none => exact fun _ => hw1
-        | some headIndex =>
-          simp only
-          have hidx1 : aGet pr1.indices ⟨slot, root⟩ = some anchorIndex := by rw [fr1.indices]; exact hi
-          have hsome1 : (aGet pr1.indices ⟨slot, root⟩).isSome := by rw [hidx1]; rfl
-          have hlt : anchorIndex < pr1.nodes.length := hw1.idx_lt hidx1
-          have hoff1 : pr1.offset = 0 := hw1.off
-          split
-          · exact fun _ => wf_setBlockSlot pr1 hw1 root slot pr1.updated hsome1
-          · rename_i hcount
-            cases hn : pr1.nodes with
-            | nil => rw [hn] at hlt; simp at hlt
-            | cons node0 rest =>
-              simp only
-              generalize hpl : (if pr1.sink = SinkKind.absent then ([] : List (NodeRef × Bool))
-                else List.replicate (anchorIndex - pr1.offset) (node0.ref, decide (node0.bestDesc = some headIndex))) = pruned
-              have hplen : pruned.length ≤ anchorIndex := by
-                rw [← hpl]; split
-                · simp
-                · simp [hoff1]
-              obtain ⟨log, upTo, ok, es, a1, a2⟩ := sendLoop_spec pruned pr1 0
-              rw [es]
-              simp only
-              have hk : upTo ≤ ({ pr1 with sinkLog := log, blockSlots := aSet pr1.blockSlots root slot } : PA).nodes.length := by
-                show upTo ≤ pr1.nodes.length
-                have a2' : upTo ≤ pruned.length := by omega
-                exact Nat.le_of_lt (Nat.lt_of_le_of_lt (Nat.le_trans a2' hplen) hlt)
-              obtain ⟨pr4, e4, ho4⟩ := dropLoop_spec node0.ref upTo
-                { pr1 with sinkLog := log, blockSlots := aSet pr1.blockSlots root slot } hk
-              rw [e4]
-              simp only
-              have hfin : pr4.offset = 0 → WF pr4 := by
-                intro h0
-                have hu : upTo = 0 := by rw [ho4] at h0; simp at h0; omega
-                subst hu
-                simp [PA.dropLoop] at e4
-                subst e4
-                have := wf_setBlockSlot { pr1 with sinkLog := log } (wf_sinkLog hw1 log) root slot pr1.updated hsome1
-                exact this
-              split <;> exact hfin
-
 end Zrnt.ForkChoice
